@@ -257,8 +257,6 @@ theorem upperPct_stable {set : List Nat} (hs : SetClosed set) (s : Str) (h : ∀
   | case5 => exact h
 
 theorem defaultSet_closed : SetClosed defaultSet := by decide
-theorem passwordSet_closed : SetClosed passwordSet := by decide
-theorem usernameSet_closed : SetClosed usernameSet := by decide
 theorem querySet_closed : SetClosed querySet := by decide
 theorem fragmentSet_closed : SetClosed fragmentSet := by decide
 
